@@ -10,9 +10,14 @@
        least one table.
      * scale invariance (ordered-field laws NumLaws, incl. 0 < x, 0 < y -> 0 < x*y; satisfied by the rationals): for every
        c > 0 the hash of c*row is the hash of row in every table, so c*row has the neighbourhood of row.
+     * END TO END (LshWhole.v, LshWholeFacade.v): in every state any history of facade calls reaches, the hash tables are those of the WHOLE
+       stored history under the planes drawn at the last fit (partial_fit keeps the planes; NbrBatch.insert_rows_app), the stored decisions,
+       rewards and contexts are aligned, and therefore the neighbourhood of a query is EXACTLY the ascending list of the stored positions whose
+       hash equals the query's in at least one table - a filter of the stored history; what reaches the learning policy are exactly those
+       observations; a query equal to a stored context always finds that observation.
     At binary64 the products round; the metamorphic relation on the implementation uses c from 2^-40 to 2^30. *)
 From Coq Require Import List ZArith Bool Arith QArith Qcanon Permutation.
-From MW Require Import Num Assoc AssocFacts Rng Par CF CFInv CFClean CFForget CFSpec Matrix Lin Warm WarmInv Nbr NbrFacts NbrIndep LshFacts Clu Tree CellFacts Mab FacadeCF FacadeArms MoreFacts NumLaws CFAlg Sim Extra QcInst OrderFacts ExpIrrel LinInv FacadeLin LpInv NbrInv CluTreeInv FacadeAll ToyFacts C09All C10All LinForget LinSim MatrixFacts GaussJordan LinSpec NbrIndepGen CluIndep C17Lin WarmIdem C14More LshScale TreeLeaf Rename.
+From MW Require Import Num Assoc AssocFacts Rng Par CF CFInv CFClean CFForget CFSpec Matrix Lin Warm WarmInv Nbr NbrFacts NbrIndep LshFacts Clu Tree CellFacts Mab FacadeCF FacadeArms MoreFacts NumLaws CFAlg Sim Extra QcInst OrderFacts ExpIrrel LinInv FacadeLin LpInv NbrInv CluTreeInv FacadeAll ToyFacts C09All C10All LinForget LinSim MatrixFacts GaussJordan LinSpec NbrIndepGen CluIndep C17Lin WarmIdem C14More LshScale TreeLeaf Rename PopSpec CopyFacts StatFacts CluBatch LinWarm LshWhole LshWholeFacade NbrRowOrder RowOrder.
 Import ListNotations.
 
 Theorem C11_hash_is_value_of_sign_pattern :
@@ -69,4 +74,88 @@ Theorem C11_sign_of_a_positive_multiple :
 Proof. exact @sign_scale. Qed.
 Print Assumptions C11_sign_of_a_positive_multiple.
 
+Theorem C11_neighbourhood_is_exactly_the_colliding_stored_positions :
+  forall (R A G : Type) (N : Num R) (s : (@nbr R A G)) (ndim nt : nat) (row : list R) (j : nat),
+  n_kind s = NLsh ndim nt ->
+  lsh_inv N s ->
+  In j (lsh_neighbors N s ndim row) <->
+  (j < length (n_cx s))%nat /\ collides N s ndim row (nth j (n_cx s) []) = true.
+Proof. exact @lsh_neighbourhood_exact. Qed.
+Print Assumptions C11_neighbourhood_is_exactly_the_colliding_stored_positions.
+
+Theorem C11_neighbourhood_is_the_ascending_list_of_colliding_positions :
+  forall (R A G : Type) (N : Num R) (s : (@nbr R A G)) (ndim nt : nat) (row : list R),
+  n_kind s = NLsh ndim nt ->
+  lsh_inv N s -> lsh_neighbors N s ndim row = positions (map (collides N s ndim row) (n_cx s)) 0.
+Proof. exact @lsh_neighbourhood_is_the_colliding_positions. Qed.
+Print Assumptions C11_neighbourhood_is_the_ascending_list_of_colliding_positions.
+
+Theorem C11_query_selects_exactly_the_colliding_observations :
+  forall (R A G : Type) (N : Num R) (s : (@nbr R A G)) (h : list (A * R * list R)) (ndim nt : nat) 
+    (row : list R) (idx : list nat),
+  n_kind s = NLsh ndim nt ->
+  lsh_inv N s ->
+  n_ds s = ds_of h ->
+  n_rs s = rs_of h ->
+  n_cx s = cx_of h ->
+  neighborhood N s row [] = Some idx ->
+  selected N s idx =
+  (ds_of (filter (colliding N s ndim row) h), rs_of (filter (colliding N s ndim row) h),
+   cx_of (filter (colliding N s ndim row) h)).
+Proof. exact @lsh_selects_a_filter_of_the_history. Qed.
+Print Assumptions C11_query_selects_exactly_the_colliding_observations.
+
+Theorem C11_stored_context_is_its_own_neighbour :
+  forall (R A G : Type) (N : Num R) (s : (@nbr R A G)) (ndim nt j : nat),
+  n_kind s = NLsh ndim nt ->
+  lsh_inv N s ->
+  n_planes s <> [] -> (j < length (n_cx s))%nat -> In j (lsh_neighbors N s ndim (nth j (n_cx s) [])).
+Proof. exact @stored_context_is_its_own_neighbour. Qed.
+Print Assumptions C11_stored_context_is_its_own_neighbour.
+
+Theorem C11_tables_hold_the_whole_history_on_every_history :
+  forall (R A G : Type) (N : Num R) (aeqb : A -> A -> bool) (RG : RngOps R G) (ops : list (@op R A)) (m : (@mab R A G)),
+  imp_hist_inv N (m_imp m) -> imp_hist_inv N (m_imp (state_after N aeqb RG m ops)).
+Proof. exact @run_preserves_hist_inv. Qed.
+Print Assumptions C11_tables_hold_the_whole_history_on_every_history.
+
+Theorem C11_constructed_policy_satisfies_the_invariant :
+  forall (R A G : Type) (N : Num R) (m : (@mab R A G)) (k : nkind) (mt : metric) (p : option (list R))
+    (kf : bool) (arms : list A) (l : (@lp R A G)),
+  m_imp m = INbr (nbr_init k mt p kf arms l) -> imp_hist_inv N (m_imp m).
+Proof. exact @constructed_neighbourhood_policy_hist_inv. Qed.
+Print Assumptions C11_constructed_policy_satisfies_the_invariant.
+
+Theorem C11_aligned_history_is_a_list_of_observations :
+  forall (R A G : Type) (s : (@nbr R A G)),
+  aligned s ->
+  let h := hist_of (n_ds s) (n_rs s) (n_cx s) in
+  n_ds s = ds_of h /\ n_rs s = rs_of h /\ n_cx s = cx_of h.
+Proof. exact @aligned_is_a_history. Qed.
+Print Assumptions C11_aligned_history_is_a_list_of_observations.
+
+(* non-vacuity: an LSHNearest bandit (2 bits, 2 tables) after fit and partial_fit - the tables hold the whole history, and the
+   second row of the partial_fit batch (stored position 3) is found by a query equal to it *)
+Definition q11 (z : Z) : Qc := Q2Qc (inject_Z z).
+Definition ex11_m0 : @mab Qc Z nat :=
+  mkMab (INbr (nbr_init (NLsh 2 2) Euclidean None false [1; 2]%Z (LCf (cf_init QcNum KGreedy (q11 0) None [1; 2]%Z)))) false 3%nat.
+Definition ex11_o : @oracle Qc Z := mkOracle [] [] [] (fun _ _ => 0%nat) [].
+Definition ex11_m := state_after QcNum Z.eqb ToyRng ex11_m0
+  [Fit [1; 2]%Z [q11 0; q11 1] (Some [[q11 1; q11 (-2)]; [q11 0; q11 3]]) ex11_o;
+   PartialFit [2; 1; 1]%Z [q11 1; q11 1; q11 0] (Some [[q11 2; q11 2]; [q11 (-1); q11 0]; [q11 1; q11 (-2)]]) ex11_o].
+Example C11_end_to_end_example :
+  match m_imp ex11_m with
+  | INbr s => n_kind s = NLsh 2 2 /\ n_planes s <> [] /\ length (n_cx s) = 5%nat /\ lsh_inv QcNum s /\
+              In 3%nat (lsh_neighbors QcNum s 2 [q11 (-1); q11 0]) /\ lsh_neighbors QcNum s 2 [q11 (-1); q11 0] <> [0; 1; 2; 3; 4]%nat
+  | _ => False
+  end.
+Proof.
+  pose proof (run_preserves_hist_inv QcNum Z.eqb ToyRng
+    [Fit [1; 2]%Z [q11 0; q11 1] (Some [[q11 1; q11 (-2)]; [q11 0; q11 3]]) ex11_o;
+     PartialFit [2; 1; 1]%Z [q11 1; q11 1; q11 0] (Some [[q11 2; q11 2]; [q11 (-1); q11 0]; [q11 1; q11 (-2)]]) ex11_o]
+    ex11_m0 (constructed_neighbourhood_policy_hist_inv QcNum ex11_m0 _ _ _ _ _ _ eq_refl)) as H.
+  fold ex11_m in H. destruct (m_imp ex11_m) as [c|l|s|s|s] eqn:E; try (vm_compute in E; discriminate).
+  destruct H as [H _]. vm_compute in E. injection E as <-.
+  split; [reflexivity|]. split; [discriminate|]. split; [reflexivity|]. split; [exact H|]. split; vm_compute; [tauto | discriminate].
+Qed.
 
